@@ -217,6 +217,7 @@ static int run_call(const jv *act, cres *r, char *why, size_t wn)
         for (k = 0; k < 8 && v && k < v->n; k++) strs[k] = K_(v->e[k]);
         WIN(4); RPTR(cJSON_CreateStringArray(isnull ? NULL : strs, cnt));
     } else if (!strcmp(a, "Duplicate")) { WIN(3); RPTR(cJSON_Duplicate(N_(A(1)), (cJSON_bool)vb_truthy((int)jv_int(A(2)), vd_salt())));
+    } else if (!strcmp(a, "AddItemReferenceToObjectAlias")) { cJSON *it = N_(A(2)); WIN(3); RBOOL(cJSON_AddItemReferenceToObject(N_(A(1)), it->string, it));
     } else if (!strcmp(a, "AddItemToObjectAlias")) { cJSON *it = N_(A(2)); WIN(3); RBOOL(cJSON_AddItemToObject(N_(A(1)), it->string, it));
     } else if (!strcmp(a, "ReplaceItemInObjectAlias")) { cJSON *it = N_(A(2)); WIN(4);
         if (jv_int(A(3))) RBOOL(cJSON_ReplaceItemInObjectCaseSensitive(N_(A(1)), it->string, it)); else RBOOL(cJSON_ReplaceItemInObject(N_(A(1)), it->string, it));
